@@ -19,7 +19,9 @@ import (
 	"net/http"
 	"os"
 	"path/filepath"
+	"regexp"
 	"runtime"
+	"strconv"
 	"strings"
 	"sync"
 	"testing"
@@ -209,11 +211,23 @@ func TestVerifDevWorker(t *testing.T) {
 // workers do not race for the same port between this check and the server's own bind.
 var devPortSeq int
 
+// devPortSlice: every worker of a run owns a slice of ports of its own. The slice is chosen by the worker's chunk index
+// (part of the job file's name), not by its pid: two live workers whose pids happened to be congruent shared a slice,
+// and a server restarting on its port could lose it to the other worker for a moment — whose answers the background
+// prober then took for a wrong version.
+func devPortSlice() (base, width int) {
+	if m := regexp.MustCompile(`-(\d+)-\d+\.jobs$`).FindStringSubmatch(os.Getenv("VERIF_JOBS")); m != nil {
+		ci, _ := strconv.Atoi(m[1])
+		return 20000 + (ci%16)*700, 700
+	}
+	return 20000 + (os.Getpid()%110)*100, 100
+}
+
 func devFreePort() int {
-	base := 20000 + (os.Getpid()%110)*100
-	for i := 0; i < 100; i++ {
+	base, width := devPortSlice()
+	for i := 0; i < width; i++ {
 		devPortSeq++
-		p := base + devPortSeq%100
+		p := base + devPortSeq%width
 		l, err := net.Listen("tcp", fmt.Sprintf("127.0.0.1:%d", p))
 		if err != nil {
 			continue
